@@ -17,7 +17,7 @@ from typing import Any, Dict, List, Optional, Tuple
 from ..engine.context import Ctx, bind_call_args
 from ..engine.exprs import Unevaluable, int_eval, norm, strip_casts
 from ..engine.report import Report
-from ..engine.universe import AnalysisError, FuncInfo, own_nodes
+from ..engine.universe import AnalysisError, FuncInfo, ancestors, own_nodes
 
 TABLIFY = "puresnmp.util:tablify"
 
@@ -118,6 +118,7 @@ def run(ctx: Ctx, rep: Report) -> None:
     rep.rule("C16-R4", "both variants consume the single-root (bulk) walk completely and in order", floor=4)
     rep.rule("C16-R5", "the wrapper keeps '0' and pythonises the other cells", floor=2)
     rep.rule("C16-R6", "no cell from outside the table: the walk's containment / once-only filter (shared with C01-R1/R2)", floor=5)
+    rep.rule("C16-R8", "a table at the end of an SNMPv1 agent's MIB: the class construct() builds for noSuchName is the one the walk loop ends quietly on", floor=2)
     rep.rule("C16-R7", "the GETBULK walk used by bulktable delivers what the GETNEXT walk delivers (shared with C02-R1..R5)", floor=30)
     rep.assumptions += ["the walk delivers exactly the instances below the root (C01 / C02)", "table() is addressed by the entry OID and bulktable() by the table OID, as documented"]
     client = ctx.client()
@@ -193,11 +194,11 @@ def run(ctx: Ctx, rep: Report) -> None:
         rep.check(okc, "C16-R4", meth.site(), f"{meth.name}: every binding the walk yields is collected, in order, and handed to tablify", key=f"{meth.key}|collects-all")
     from . import c02
 
-    sub = Report(rep.prop, rep.tier)
-    c02.run(ctx, sub)
+    sub = ctx.sub_run("c02", rep)
     rep.adopt_rules(sub, "C16-R7", ["C02-R1", "C02-R2", "C02-R3", "C02-R4", "C02-R5"])
     if len(variants) < 2:
         rep.undecided("C16-R1", f"{client.module.path} (Client)", "both table variants call tablify", f"{len(variants)} call site(s)")
+    check_v1_end(ctx, rep)
 
     # ------------------------------------------------------------ R2 / R3 (tablify)
     nvar = "num_base_nodes"
@@ -336,3 +337,49 @@ def drains_through_helper(ctx: Ctx, meth: FuncInfo, vb_arg, walk_calls) -> bool:
                 if isinstance(c.func, ast.Attribute) and c.func.attr == "append" and len(c.args) == 1 and norm(c.args[0]) == norm(loops[0].target) and norm(rets[0].value) == norm(c.func.value):
                     return True
     return False
+
+
+def check_v1_end(ctx: Ctx, rep: Report, rule: str = "C16-R8") -> None:
+    """
+    GETNEXT tables are also fetched from SNMPv1 agents, which signal the end of the MIB with error-status
+    noSuchName(2).  ErrorResponse.construct() instantiates the *direct* subclass whose IDENTIFIER is 2; the
+    continuation request of the walk must end quietly on exactly that class.
+    """
+    from ..engine.patterns import enclosing_tries_of
+    from ..engine.resolve import NotConstant
+    from .c01 import all_paths_reraise
+    from .walkmodel import WalkModel
+
+    wm = WalkModel(ctx)
+    base = ctx.u.cls("puresnmp.exc:ErrorResponse")
+    owners = []
+    for cls in ctx.r.subclasses(base, direct=True):
+        try:
+            if ctx.r.class_const(cls, "IDENTIFIER") == 2:
+                owners.append(cls)
+        except NotConstant:
+            continue
+    site = f"{base.module.path} (ErrorResponse subclasses)"
+    rep.check(len(owners) == 1, rule, site, "exactly one direct ErrorResponse subclass carries error-status 2 (noSuchName)", f"{[c.name for c in owners]}", key="noSuchName|owner")
+    if len(owners) != 1:
+        return
+    produced = owners[0]
+    w = wm.walk
+    loop_calls = [c for c in wm.fetch_calls if any(isinstance(a, (ast.While, ast.For, ast.AsyncFor)) for a in ancestors(c))]
+    if not loop_calls:
+        rep.undecided(rule, w.site(), "the walk has a continuation request inside a loop", "none found")
+        return
+    for call in loop_calls:
+        quiet = False
+        for tr, part in enclosing_tries_of(call, w):
+            if part != "body":
+                continue
+            for h in tr.handlers:
+                types = [] if h.type is None else (h.type.elts if isinstance(h.type, ast.Tuple) else [h.type])
+                catches = h.type is None or any((ctx.r.resolve_class(w.module, t) is not None and ctx.r.is_subclass(produced, ctx.r.resolve_class(w.module, t))) for t in types)
+                if catches:
+                    quiet = quiet or not all_paths_reraise(h)
+                    break
+            if quiet:
+                break
+        rep.check(quiet, rule, w.site(call), f"the continuation request ends the walk quietly when the agent answers noSuchName (construct() builds {produced.name})", f"no handler around the request catches {produced.name} without re-raising", key=f"{w.key}|noSuchName-ends-walk")
